@@ -325,6 +325,14 @@ def save_restore(ctx, repo, scope=("",), rule="SAVE-REST"):
                     saves.setdefault((st.targets[0].id, norm(st.value)), []).append(st)
             if not saves:
                 continue
+            # cross restore: o.f = v where v was saved from o.g and o.f has its own saved copy
+            saved_exprs = {e: v for (v, e) in saves}
+            for st in sts:
+                if isinstance(st, ast.Assign) and len(st.targets) == 1 and isinstance(st.targets[0], ast.Attribute) and isinstance(st.value, ast.Name):
+                    tgt = norm(st.targets[0])
+                    src = [e for (v, e) in saves if v == st.value.id]
+                    if tgt in saved_exprs and src and tgt not in src and len([n for n in ast.walk(fn) if isinstance(n, ast.Name) and n.id == st.value.id and isinstance(n.ctx, ast.Store)]) == 1 and saves[(st.value.id, src[0])][0].lineno < st.lineno:
+                        ctx.ob(rule, f"{rel}:{q}", f"{norm(st)} (restore)", False, f"`{st.value.id}` holds the saved `{src[0]}`; `{tgt}` was saved in `{saved_exprs[tgt]}`")
             g = None
             for st in sts:
                 if not (isinstance(st, ast.Assign) and len(st.targets) == 1 and isinstance(st.targets[0], (ast.Attribute, ast.Subscript)) and isinstance(st.value, ast.Name)):
@@ -494,3 +502,66 @@ def loop_leak(ctx, repo, scope=("",), rule="LOOP-LEAK", _self=False):
 
 
 GENERIC = [lost_update, num_truth, len_minus_one, loop_leak]
+
+
+# ---------------------------------------------------------------------------
+# CLONE: deliberate copies of one routine in two modules stay identical
+# ---------------------------------------------------------------------------
+class _Canon(ast.NodeTransformer):
+    def __init__(self):
+        self.m = {}
+
+    def k(self, s):
+        return self.m.setdefault(s, f"v{len(self.m)}")
+
+    def visit_Name(self, n):
+        return ast.copy_location(ast.Name(id=self.k(n.id), ctx=n.ctx), n)
+
+    def visit_arg(self, n):
+        n.arg = self.k(n.arg)
+        n.annotation = None
+        return n
+
+
+def _canon_dump(fnode):
+    import copy
+
+    fn = copy.deepcopy(fnode)
+    fn.body = [s for s in fn.body if not (isinstance(s, ast.Expr) and isinstance(s.value, ast.Constant) and isinstance(s.value.value, str))]
+    fn.decorator_list = []
+    fn.returns = None
+    for n in ast.walk(fn):
+        if isinstance(n, ast.AnnAssign):
+            n.annotation = ast.Constant(value=None)
+    fn.name = "f"
+    return _dump_stmts(fn)
+
+
+def _dump_stmts(fn):
+    c = _Canon()
+    c.visit(fn.args)
+    return [ast.dump(c.visit(s)) for s in fn.body]
+
+
+CLONES = {
+    "C13": [("cu2qu/cu2qu.py", "cubic_farthest_fit_inside", "qu2cu/qu2cu.py", "cubic_farthest_fit_inside")],
+    "C19": [
+        ("misc/filenames.py", "handleClash1", "ufoLib/filenames.py", "handleClash1"),
+        ("misc/filenames.py", "handleClash2", "ufoLib/filenames.py", "handleClash2"),
+    ],
+}
+
+
+def clones(ctx, repo, prop="C13", rule="CLONE"):
+    ctx.rule(rule, "routines that exist as deliberate copies in two modules are still the same program up to renaming of local names (a change made to one copy only leaves the other with the old behaviour, or is itself the slip)", floor=1)
+    for ra, qa, rb, qb in CLONES[prop]:
+        fa, fb = repo.mod(ra).func(qa), repo.mod(rb).func(qb)
+        da, db = _canon_dump(fa.node), _canon_dump(fb.node)
+        ok = da == db
+        detail = ""
+        if not ok:
+            i = next((i for i, (x, y) in enumerate(zip(da, db)) if x != y), min(len(da), len(db)))
+            sa = [s for s in fa.node.body if not (isinstance(s, ast.Expr) and isinstance(s.value, ast.Constant))]
+            sb = [s for s in fb.node.body if not (isinstance(s, ast.Expr) and isinstance(s.value, ast.Constant))]
+            detail = f"first difference at statement {i + 1}: `{norm(sa[i])[:70] if i < len(sa) else '<end>'}` vs `{norm(sb[i])[:70] if i < len(sb) else '<end>'}`"
+        ctx.ob(rule, fa.where, f"{ra}:{qa} == {rb}:{qb} (up to local names, annotations, docstrings)", ok, detail)
